@@ -351,6 +351,9 @@ class HistogramWorld(World):
             m = L(ea)
             outcomes = {int(q): b for q, b in op["outcomes"].items() if int(q) < m}
             outcomes = dict(list(sorted(outcomes.items()))[:max(0, m - 1)])
+            if op.get("np_seed", 0) % 2 and len(outcomes) > 1:
+                outcomes = dict(reversed(list(outcomes.items())))      # the dictionary need not list the qubits in ascending order
+                ctx.probe("C18.expected_outcomes_listed_in_descending_order")
             if not outcomes:
                 ctx.outcome(k, "skipped")
                 return V
@@ -505,6 +508,9 @@ class HistogramWorld(World):
                 des = op.get("desired")
                 if des is not None:
                     des = des[:len(idx)]
+                    if op.get("np_seed", 0) % 2 and len(idx) > 1:
+                        idx, des = list(reversed(idx)), des[::-1]            # same request, qubits listed in descending order
+                        ctx.probe("C18.expected_outcomes_listed_in_descending_order")
                     surv = {b: c for b, c in freqs.items() if all(b[q] == v for q, v in zip(idx, des))}
                     mass = sum(surv.values())
                     exp_ps = {b: c / mass for b, c in marginal(surv, set(idx)).items()} if mass > 0 else None
